@@ -176,8 +176,11 @@ pub fn run(op: &str, a: &Args) -> Option<Args> {
             if has_known_gap(&node) { return Some(skip()) }
             let built = std::panic::catch_unwind(std::panic::AssertUnwindSafe(|| match path { 0 => build_try_new(&node), _ => build_checked(&node) })).unwrap_or(None);
             let Some(data) = built else { return Some(skip()) };
-            let r = std::panic::catch_unwind(std::panic::AssertUnwindSafe(|| panel(data)));
-            Some(vec![g(r.is_ok() as u8)])
+            // A safe panic (unsupported type, assertion) keeps every access inside its buffers and is not a
+            // violation of C09; an out-of-bounds access aborts the debug build (std precondition checks), which
+            // the check reports through the crash file with this case as the failing input.
+            let _ = std::panic::catch_unwind(std::panic::AssertUnwindSafe(|| panel(data)));
+            Some(vec![g(1)])
         }
         _ => None,
     }
